@@ -1,5 +1,6 @@
 import NeverModel.Lemmas.ExcTab
 import NeverModel.Lemmas.Frame
+import NeverModel.Lemmas.VmIpSound
 /-!
 # C03 — run-time faults become exceptions delivered to the right catch clause
 
@@ -109,5 +110,30 @@ theorem rethrow_pops_one_frame (vm0 vm1 vm2 : Vm) (retAddr : Nat)
 def exTab : Array ExcEntry := #[⟨0, 100⟩, ⟨10, 200⟩, ⟨25, 300⟩, ⟨4294967295, 4294967295⟩]
 example : ExcWF exTab 3 = true ∧ (12 : Nat) < 4294967295 := by decide
 example : excHandler exTab 3 12 = some 200 := by decide +kernel
+
+open Never.Vm Never.Ver in
+/-- **Delivery, at the machine level.** From a running machine whose exception table is well-formed, one `step` on any
+instruction of the effect table (every arithmetic, indexing, allocation, conversion, build-in … instruction; all that can
+fault) ends in exactly one of three ways: the instruction completed (next address), the machine stopped in VM_ERROR, or
+an exception was raised and the machine is **running again at the handler of THE block of the table that contains the
+faulting address** — with the frame registers `fp`, `pp` untouched, so the `CLEAR_STACK` / `RETHROW` that every handler
+begins with (theorems above) acts on the faulting function's own frame. -/
+theorem fault_enters_the_block_handler (md : Module) (orc : Oracle) (vm vm' : Vm) (ins : Instr) (p q : Nat)
+    (hwf : ExcWF md.exctab md.excCount = true) (hsmall : vm.ip < 4294967295)
+    (hf : md.code[vm.ip]? = some ins) (hrun : vm.running = 1) (he : simpleEffect ins = some (p, q)) (hj : ins.op ≠ .JUMPZ)
+    (h : (step md orc).run vm = .ok ((), vm')) :
+    vm'.fp = vm.fp ∧ vm'.pp = vm.pp ∧
+    ((vm'.running = 1 ∧ vm'.ip = vm.ip + 1) ∨ vm'.running = 3 ∨
+     (vm'.running = 1 ∧ ∃ i e1 e2, i < md.excCount ∧ md.exctab[i]? = some e1 ∧ md.exctab[i + 1]? = some e2 ∧
+        e1.block ≤ vm.ip ∧ vm.ip < e2.block ∧ vm'.ip = e1.handler)) := by
+  obtain ⟨a1, a2, _, a4⟩ := step_table md orc vm vm' ins p q hf hrun he hj h
+  refine ⟨a1, a2, ?_⟩
+  rcases a4 with ⟨r, hip, _⟩ | ⟨r, hh⟩ | r
+  · left; exact ⟨r, hip⟩
+  · right; right
+    obtain ⟨i, e1, e2, hi, t1, t2, b1, b2, hh'⟩ := exctab_search_correct md.exctab md.excCount vm.ip hwf hsmall
+    rw [hh'] at hh
+    exact ⟨r, i, e1, e2, hi, t1, t2, b1, b2, (Option.some.inj hh).symm⟩
+  · right; left; exact r
 
 end Never.C03
